@@ -279,7 +279,10 @@ def emit_file_on_hierarchy(
         else:
             makedirs(mod_path)
 
-    init_filepath: str = path.join(path.dirname(mod_path), INIT_FILENAME)
+    # when the output directory is itself the new module, its `__init__.py` lives inside it (never in its parent)
+    init_filepath: str = path.join(
+        mod_path if output_dir_is_module else path.dirname(mod_path), INIT_FILENAME
+    )
     if dry_run:
         print(
             "touch\t'{init_filepath}'".format(
